@@ -118,6 +118,7 @@ fn main() {
             "parse" => suites::parse::replay(&body),
             "grp" => suites::group::replay(&body),
             "eg" => suites::eg::replay(&body),
+            "expl" => suites::expl::replay(&body),
             _ => panic!("unknown suite"),
         };
         ctx.emit(c);
@@ -138,6 +139,7 @@ fn main() {
             "ana" => suites::ana::run(&mut ctx),
             "mat" => suites::mat::run(&mut ctx),
             "repro" => suites::repro::run(&mut ctx),
+            "expl" => suites::expl::run(&mut ctx),
             "plant" => suites::mat::run_plant(&mut ctx),
             "ord" => suites::meta::run_order(&mut ctx),
             "ren" => suites::meta::run_rename(&mut ctx),
